@@ -1,0 +1,16 @@
+//go:build verif
+// +build verif
+
+package consensus
+
+import "github.com/LemoFoundationLtd/lemochain-core/common"
+
+// VerifSigCache / VerifSetSigCache read / preset the package-level signer memo `sigCache`.
+// Used by the C19 verification harness only (sequential SignBlock from a chosen cache state,
+// e.g. the torn state that an unsynchronised interleaving of two SignBlock calls leaves behind).
+func VerifSigCache() (common.Hash, []byte) { return sigCache.Hash, sigCache.Sig }
+
+func VerifSetSigCache(hash common.Hash, sig []byte) {
+	sigCache.Hash = hash
+	sigCache.Sig = sig
+}
